@@ -1480,8 +1480,11 @@ class SpaceManager(SharedSpaceOperations):
         if isinstance(value, Interface) and refmode == "relative":
             basevalue = value._impl.idstr
             for subspace in self._get_subs(space):
-                if name in subspace.own_refs:
-                    break
+                if name in subspace.own_refs and (
+                        subspace.own_refs[name].is_defined()
+                        or subspace.own_refs[name].defined_bases[0]
+                        is not space.own_refs.get(name)):
+                    continue    # Not derived from this reference
                 else:
                     subvalue = self._graph.get_relative(
                         subspace.idstr, space.idstr,
